@@ -262,6 +262,7 @@ theorem parseStd_assemble {scheme a ep path q : Str} {user : Option UserInfo} {h
   unfold parseStd
   rw [splitFirst_none h35]
   simp only [Bool.not_true, Bool.false_eq_true, if_false, hctl]
+  unfold parseNoFrag
   have hsch : getScheme (assemble scheme a ep fq q) = some (scheme, 47 :: 47 :: (a ++ (ep ++ queryText fq q))) := by
     unfold assemble; exact getScheme_scheme hs _
   rw [hsch]
